@@ -2017,6 +2017,16 @@ class Engine:
             if isinstance(pt, TList) and isinstance(env.get(pn), (CList, tuple)):
                 env[pn] = to_slist(env[pn], pt.t)
         site = f"{fr.qual}@{self.site(node)}"
+        if contract.trusted:
+            alias = getattr(contract, "alias_of", None)
+            if alias is not None:
+                self.trusted_used.add(f"constructor protocol: {contract.target}(...) allocates the object and runs __init__, whose body is verified against "
+                                      f"this postcondition (contract {alias.target}{'#' + alias.instance if alias.instance else ''})")
+            else:
+                self.trusted_used.add(f"ASSUMED contract of {contract.target} (used at {site.split('@')[0]} call sites, not verified): {contract.note}"[:400])
+        for pn, pt in contract.params.items():
+            if pn not in env and type(pt).__name__ == "TOpt":
+                env[pn] = None          # an optional argument that is not passed
         arg_nodes = {}
         if node is not None:
             pnames = [x.arg for x in fnode.args.args] if fnode is not None else list(contract.params)
